@@ -243,6 +243,10 @@ Proof.
   - cbn [fst snd]. split; [dstep|evs].
   - cbn [fst snd]. split; [dstep|evs].
   - cbn [fst snd]. split; [dstep|evs].
+  - cbn [fst snd]. split; [dstep|evs].
+  - cbn [fst snd]. split; [dstep|evs].
+  - cbn [fst snd]. split; [dstep|evs].
+  - cbn [fst snd]. split; [dstep|evs].
 Qed.
 
 Lemma disc_inv_init d0 progs :
@@ -429,6 +433,10 @@ Proof.
     destruct Hinv as [Ha Hb]. destruct (Hb t ts p Ht Hreg) as [r [Hr Hfr]]. rewrite Hr.
     cbn [fst snd]. split; [|eevs].
     refine (err_inv_recmod st t ts _ (p_idx p) r _ (conj Ha Hb) Ht _ Hr _); [cbn; symmetry; exact Hreg|]. intros it [].
+  - cbn [fst snd]. split; [estep|eevs].
+  - cbn [fst snd]. split; [estep|eevs].
+  - cbn [fst snd]. split; [estep|eevs].
+  - cbn [fst snd]. split; [estep|eevs].
   - cbn [fst snd]. split; [estep|eevs].
   - cbn [fst snd]. split; [estep|eevs].
   - cbn [fst snd]. split; [estep|eevs].
@@ -1074,4 +1082,73 @@ Proof.
     - intro Hz. unfold Z in Hz. rewrite Hq in Hz. auto. }
   destruct (run_invariant (log_inv g0 Z) (log_good g0 Z) (exec_log g0 Z) sched _ H0) as [_ HG].
   intros v Hin. apply (HG t _ Hin v eq_refl). unfold Z. rewrite Hp. exact Hfree.
+Qed.
+
+(* ---------------------------------------------------------------------------------------------------------------
+   reference count of a shared compiled type: atomic increments / decrements never lose an update
+   --------------------------------------------------------------------------------------------------------------- *)
+Definition ref_inv (st : state) : Prop :=
+  forall t ts, nth_error (s_thr st) t = Some ts -> plain_ref_free (t_rem ts) = true.
+
+Lemma ref_sum_app x y : ref_sum (x ++ y) = (ref_sum x + ref_sum y)%Z.
+Proof.
+  induction x as [|[t e] x IH]; [reflexivity|]. cbn [app ref_sum]. destruct e; rewrite ?IH; try reflexivity. lia.
+Qed.
+
+Lemma ref_inv_step st st1 t ts ts' :
+  ref_inv st -> nth_error (s_thr st) t = Some ts -> s_thr st1 = s_thr st -> plain_ref_free (t_rem ts') = true ->
+  ref_inv (set_thr st1 (lset (s_thr st1) t ts')).
+Proof.
+  intros Hinv Ht Hthr Hf u tsu Hu. cbn [s_thr set_thr] in Hu. rewrite Hthr in Hu.
+  destruct (Nat.eq_dec t u) as [->|Hne].
+  - rewrite (lset_same _ _ _ _ Ht) in Hu. inversion Hu; subst tsu. exact Hf.
+  - rewrite lset_other in Hu by exact Hne. apply (Hinv u tsu Hu).
+Qed.
+
+Lemma exec_ref st t :
+  ref_inv st ->
+  ref_inv (fst (exec st t)) /\
+  s_tref (fst (exec st t)) = (s_tref st + ref_sum (map (fun e => (t, e)) (snd (exec st t))))%Z.
+Proof.
+  intro Hinv. unfold exec. destruct (nth_error (s_thr st) t) as [ts|] eqn:Ht; [|split; [exact Hinv|cbn; lia]].
+  destruct (t_rem ts) as [|stp rest] eqn:Hrem; [split; [exact Hinv|cbn; lia]|].
+  pose proof (Hinv t ts Ht) as Hf. rewrite Hrem in Hf. destruct (free_tl _ _ _ Hf) as [Hfs Hfr].
+  assert (Hgen : forall st1 r loc, s_thr st1 = s_thr st ->
+            ref_inv (set_thr st1 (lset (s_thr st1) t (mkT rest r loc)))).
+  { intros st1 r loc H1. apply ref_inv_step with (st := st) (ts := ts); auto. }
+  destruct stp; cbn [exec_step];
+    try (destruct (holder st m) eqn:Hh); try (destruct (holds st t m));
+    try (destruct (negb (s_dict st s =? 0)));
+    try (match goal with |- context [skipn] => fail 1 | |- context [flag (t_reg ts)] => destruct (flag (t_reg ts)) end);
+    try (match goal with |- context [find_rec (s_erecs st) t 0] => destruct (find_rec (s_erecs st) t 0) end);
+    try (match goal with |- context [err_resize ?x1 ?x2 ?x3 ?x4] => destruct (err_resize x1 x2 x3 x4) as [[g sz] md] end);
+    try (match goal with |- context [match t_reg ts with _ => _ end] => destruct (t_reg ts) as [|b0|[p0|]|b0] end);
+    try (destruct (nth_error (s_erecs st) (p_idx p0)));
+    cbn [fst snd]; try discriminate;
+    try (split; [first [exact Hinv | apply Hgen; try reflexivity; destruct m; reflexivity]
+                | cbn [map ref_sum s_tref set_thr set_dict set_err set_canon set_hash set_log set_ref];
+                  try (destruct m; cbn [s_tref set_holder]); lia]).
+  - (* SkipIf *)
+    split; [|cbn; lia]. apply ref_inv_step with (st := st) (ts := ts); auto. cbn [t_rem].
+    destruct (Bool.eqb (flag (t_reg ts)) b); [apply free_skipn|]; exact Hfr.
+Qed.
+
+Lemma run_ref sched : forall st,
+  ref_inv st ->
+  ref_inv (fst (run sched st)) /\ s_tref (fst (run sched st)) = (s_tref st + ref_sum (snd (run sched st)))%Z.
+Proof.
+  induction sched as [|t s IH]; intros st Hinv; cbn [run fst snd]; [split; [exact Hinv|cbn; lia]|].
+  destruct (exec_ref st t Hinv) as [H1 H2]. destruct (IH _ H1) as [H3 H4]. split; [exact H3|].
+  rewrite ref_sum_app. rewrite H4, H2. lia.
+Qed.
+
+Theorem ref_atomic_no_lost_update c progs sched :
+  (forall q, In q progs -> plain_ref_free q = true) ->
+  s_tref (fst (run sched (init_ref c progs))) = (c + ref_sum (snd (run sched (init_ref c progs))))%Z.
+Proof.
+  intro Hall. assert (H0 : ref_inv (init_ref c progs)).
+  { intros u tsu Hu. cbn [init_ref s_thr] in Hu. rewrite nth_error_map in Hu.
+    destruct (nth_error progs u) as [q|] eqn:Hq; cbn in Hu; [|discriminate]. inversion Hu; subst tsu. cbn [t_rem].
+    apply Hall. eapply nth_error_In; exact Hq. }
+  destruct (run_ref sched _ H0) as [_ H]. exact H.
 Qed.
